@@ -13,7 +13,32 @@ FOREIGN = ['sdc.ctxt.loc:/a/b/c/d', 'sdc.ctxt.loc:', 'sdc.ctxt.loc:/', 'sdc.ctxt
            'sdc.ctxt.loc:/sdc.ctxt.loc.detail/x?cls=1&fac=a', 'sdc.ctxt.loc:/sdc.ctxt.loc.detail/x?FAC=a&Bed=1']
 
 
+def _matches_spec():
+    """_scope_string_matches(text) == (from_scope_string accepts text and the location is inside self), on a family of
+    locations that includes long and non-ASCII element values."""
+    import itertools
+    vals = ['a', 'CU1', 'x' * 300, '\u6771\u4eac\u533b\u7642\u30bb\u30f3\u30bf\u30fc' * 3, 'a b/c?d#e%f&g=h', 'Z' * 1200]
+    for combo in itertools.islice(itertools.product(vals, repeat=3), 0, 216):
+        other = SdcLocation(fac=combo[0], poc=combo[1], bed=combo[2], bldng=combo[1][:5], flr=combo[2][:3], rm=combo[0][:7])
+        text = other.scope_string
+        for me in (SdcLocation(), SdcLocation(fac=combo[0]), other, SdcLocation(fac=combo[0] + '_', poc=combo[1])):
+            try:
+                parsed = SdcLocation.from_scope_string(text)
+                want = parsed in me
+            except Exception:  # noqa: BLE001
+                want = False
+            got = me._scope_string_matches(text)
+            if got != want:
+                return {'violates': True, 'witness_key': 'matcher-differs-from-parse-and-contains',
+                        'detail': f'_scope_string_matches gives {got!r} for a scope of length {len(text)} whose location is '
+                                  f'{"inside" if want else "not inside"} {me!r}: {text[:120]!r}...'}
+    return None
+
+
 def filter_total(inputs):
+    if (inputs or {}).get('obligation', '').endswith('matches_iff_the_scope_denotes_a_location_inside'):
+        r = _matches_spec()
+        return r or {'violates': None, 'detail': 'no location of the replay family separates the matcher from its specification'}
     loc = SdcLocation(fac='a', poc='b', bed='c')
     for text in FOREIGN:
         svc = types.SimpleNamespace(scopes=types.SimpleNamespace(text=[text]))
